@@ -18,7 +18,8 @@ ID = "C15"
 RULE = (
     "Hypothesis @given: a generated solution (random forest with divisions, skip edges, several "
     "lineages, non-contiguous ids; 2D/3D; with/without segmentation), optionally after an editing "
-    "session of 3-12 random user actions, and a non-empty random node "
+    "session of 3-12 random user actions, or built through the import path with relabelled "
+    "segmentation (nodes keep a source seg_id), and a non-empty random node "
     "subset (biased to leaves below divisions, roots, nodes of several lineages). CSV "
     "(export_to_csv, plain and display names, with the relabelled tif) and GEFF (export_to_geff, "
     "with segmentation) are written with node_ids=subset and read back with pandas / tifffile / "
@@ -30,7 +31,7 @@ RULE = (
     "seg, ndim, |subset|, |closure|, |nodes|, #lineages hit)."
 )
 ASSUMPTIONS = ["subsets are non-empty and contain only existing nodes"]
-REQUIRED_CLASSES = {t: ["c15:closure_strictly_between", "c15:several_lineages", "part:geff", "part:csv", "c15:after_session"]
+REQUIRED_CLASSES = {t: ["c15:closure_strictly_between", "c15:several_lineages", "part:geff", "part:csv", "c15:after_session", "c15:imported_seg_id_differs"]
                     for t in ("quick", "thorough")}
 
 
@@ -182,11 +183,93 @@ def _probe_geff(res, inp, world, tr, closure, induced, tmp):
             res.fail("geff_seg", "exported segmentation != masks of subset+ancestors")
 
 
+# ---- tracks that came through the import path (labels relabelled to node ids; the nodes keep
+# ---- their source seg_id attribute) ------------------------------------------------------
+class _Shim:
+    def __init__(self, tracks, ndim):
+        self.tracks = tracks
+        self.ndim = ndim
+        self.cfg = {"seg": True}
+
+    def nodes(self):
+        return sorted(int(n) for n in self.tracks.graph.nodes)
+
+    def edges(self):
+        return sorted((int(u), int(v)) for u, v in self.tracks.graph.edges)
+
+    def time(self, n):
+        return int(self.tracks.get_time(n))
+
+
+@st.composite
+def imported_inputs(draw, fmt):
+    from . import c13
+
+    base = draw(c13.inputs(with_df=True))
+    base["with_pos"] = False
+    base["fmt"] = fmt
+    base["picks"] = draw(st.lists(st.integers(0, 50), min_size=1, max_size=3))
+    base["display"] = False
+    base["zarr"] = 2
+    return base
+
+
+def probe_imported(inp) -> ProbeResult:
+    import pandas as pd
+
+    from funtracks.import_export import tracks_from_df
+
+    from . import c13
+
+    res = ProbeResult()
+    if not inp["nodes"] or any(n["id"] == 0 for n in inp["nodes"]):
+        res.discarded = "no_nodes_or_id0"
+        return res
+    seg = c13._build(inp)
+    rows = [{"t": n["t"], "id": n["id"], "parent_id": -1 if n["parent"] is None else n["parent"],
+             "seg_id": n["seg_id"]} for n in inp["nodes"]]
+    nm = {"time": "t", "id": "id", "parent_id": "parent_id", "seg_id": "seg_id"}
+    with warnings.catch_warnings():
+        warnings.simplefilter("ignore")
+        try:
+            tracks = tracks_from_df(pd.DataFrame(rows), seg, node_name_map=nm)
+        except Exception as e:  # noqa: BLE001 - C13's subject, not this property's
+            res.discarded = f"import_failed:{type(e).__name__}"
+            return res
+    world = _Shim(tracks, len(inp["spatial"]) + 1)
+    ids = world.nodes()
+    subset = sorted({ids[p % len(ids)] for p in inp["picks"]})
+    inp2 = dict(inp, subset=subset)
+    edges = world.edges()
+    closure = refs.ancestors_closure(edges, subset)
+    induced = {(u, v) for u, v in edges if u in closure and v in closure}
+    parent = {v: u for u, v in edges}
+    tmp = Path(tempfile.mkdtemp(prefix="verif-c15-"))
+    try:
+        with warnings.catch_warnings():
+            warnings.simplefilter("ignore")
+            if inp["fmt"] == "csv":
+                _probe_csv(res, inp2, world, tracks, closure, parent, tmp)
+            else:
+                _probe_geff(res, inp2, world, tracks, closure, induced, tmp)
+    except Exception as e:  # noqa: BLE001
+        res.fail(f"exception:{type(e).__name__}", f"{inp['fmt']} subset export of imported tracks raised {e!r}")
+    finally:
+        shutil.rmtree(tmp, ignore_errors=True)
+    res.tags.append("c15:imported_tracks")
+    if any(n["id"] != n["seg_id"] for n in inp["nodes"]):
+        res.tags.append("c15:imported_seg_id_differs")
+    _classify(res, inp2, world, closure)
+    return res
+
+
 PARTS = [
     Part("csv", inputs("csv"), probe, quick=800, thorough=8000),
     Part("geff", inputs("geff"), probe, quick=500, thorough=6000),
     Part("csv_session", inputs("csv", session=True), probe, quick=300, thorough=3000),
     Part("geff_session", inputs("geff", session=True), probe, quick=200, thorough=2000),
+    Part("geff_imported", imported_inputs("geff"), probe_imported, quick=250, thorough=2500),
+    Part("csv_imported", imported_inputs("csv"), probe_imported, quick=250, thorough=2500),
 ]
 
 
